@@ -72,7 +72,7 @@ def get_x12file_metadata(param, src_file, map_path=None, do_node_summary=False):
             fic = seg.get_value('GS01')
             vriic = seg.get_value('GS08')
             map_file_new = map_index_if.get_filename(icvn, vriic, fic)
-            if map_file != map_file_new:
+            if map_file != map_file_new or cur_map is None:
                 map_file = map_file_new
                 if map_file is None:
                     err_str = "Map not found.  icvn={}, fic={}, vriic={}".format(icvn, fic, vriic)
